@@ -348,7 +348,8 @@ def r2(ctx: Ctx) -> None:
             ok = False
             for b in brs:
                 t, fl = edge_target(g, b, "true"), edge_target(g, b, "false")
-                if t is not None and r.id in reachable_from(g, t, NORMAL) and fl is not None and r.id not in reachable_from(g, fl, NORMAL):
+                if t is not None and r.id in reachable_from(g, t, NORMAL) and fl is not None and r.id not in reachable_from(g, fl, NORMAL) \
+                        and b.id in ctx.dom(f, ALL)[r.id]:
                     rs = [g.nodes[x] for x in reachable_from(g, fl, NORMAL) if g.nodes[x].kind == "raise"]
                     ok = bool(rs) and all(x.raised == "ValueError" for x in rs)
             ctx.ob("C17.R2", f, "the resolved path is returned only when inside; outside raises ValueError", r, ok,
@@ -358,7 +359,11 @@ def r2(ctx: Ctx) -> None:
         defs = [n for n in g.nodes if n.kind == "stmt" and isinstance(n.ast, ast.Assign) and norm_text(n.ast.targets[0]) in flag_names]
         ok = any("commonpath" in norm_text(d.ast.value) and "==" in norm_text(d.ast.value) for d in defs) and \
             all(("commonpath" in norm_text(d.ast.value)) or (isinstance(d.ast.value, ast.Constant) and d.ast.value.value is False) for d in defs)  # type: ignore[union-attr]
-        ctx.ob("C17.R2", f, "`inside` is the commonpath equality, False on error", defs[0] if defs else None, ok, "")
+        if not flag_names:
+            # the test is the comparison itself (possibly inside a predicate helper): it must be an equality with commonpath
+            ok = all(isinstance(b.ast, ast.Compare) and len(b.ast.ops) == 1 and isinstance(b.ast.ops[0], ast.Eq)
+                     and "commonpath" in norm_text(b.ast) for b in brs)
+        ctx.ob("C17.R2", f, "`inside` is the commonpath equality, False on error", defs[0] if defs else (brs[0] if brs else None), ok, "")
     # every return of a sanitiser on the local-backend path is (a) another sanitiser's result or (b) the realpath'ed value
     # under the inside-test; anything else hands out an unchecked path
     for q in ("storage_backend.LocalStorageBackend._resolve_path", "data_operations.DataFileManager._get_arrow_path"):
@@ -424,7 +429,9 @@ def r3(ctx: Ctx) -> None:
                "the traversal guard runs first, for the check as well as the value (#47)")
     lf = ctx.fn("storage_backend.LocalStorageBackend.list_files")
     lg = ctx.cfg(lf)
-    brs = [b for b in lg.nodes if b.kind == "branch" and "pardir" in b.text]
+    lsl = ctx.slicer(lf)
+    brs = [b for b in lg.nodes if b.kind == "branch" and b.id in lg.reachable() and b.ast is not None
+           and ("pardir" in b.text or any("pardir" in nm for nm in lsl.origins(b.ast, b.id)["names"]))]
     ok = False
     for b in brs:
         t = edge_target(lg, b, "true")
